@@ -48,6 +48,14 @@ func ownerRevision(p *Pass, owner store.Obj) int64 {
 	if r := store.Int(owner, "status", "revision"); r != 0 {
 		return r
 	}
+	// assigned in this very pass: what the pass wrote into its own status is what it acts under
+	for _, rq := range p.Reqs {
+		if rq.Verb == "update-status" && rq.GVK.Kind == p.Ctrl && rq.Name == p.Key.Name && rq.NS == p.Key.Namespace && rq.Body != nil {
+			if r := store.Int(rq.Body, "status", "revision"); r != 0 {
+				return r
+			}
+		}
+	}
 	prev, _ := store.Get(owner, "spec", "previous").([]any)
 	if len(prev) == 0 {
 		return 1
